@@ -382,11 +382,7 @@ def gen_matches(rng, tier):
             cnt = [idx]
             arms2 = [add_bindings(t, a, cnt) if a[0] != "or" else a for a in arms]
             # bindings must be unique per arm: add_bindings numbers them by a running counter
-            ctx = "fn"
-            if idx % 23 == 5:
-                ctx = "lambda"
-            elif idx % 23 == 11:
-                ctx = "task"
+            ctx = {5: "lambda", 11: "task", 2: "arm", 7: "scrutinee", 13: "if", 17: "while", 19: "for", 21: "operand"}.get(idx % 23, "fn")
             ms.append(Match(idx, t, arms2, ctx))
             idx += 1
     return decls, ms
@@ -433,6 +429,30 @@ def emit_check(decls, ms):
         elif m.ctx == "task":
             pre = "  task {\n    let r = "
             post = "\n    println(r)\n  }\n  0"
+            scrut = "x"
+        elif m.ctx == "arm":          # the match is the body of an arm of an enclosing match
+            pre = "  match 1 {\n    1 -> "
+            post = "\n    _ -> 0\n  }"
+            scrut = "x"
+        elif m.ctx == "scrutinee":    # the match is the scrutinee of an enclosing match
+            pre = "  match ("
+            post = ") {\n    _ -> 0\n  }"
+            scrut = "x"
+        elif m.ctx == "if":
+            pre = "  if true { "
+            post = " } else { 0 }"
+            scrut = "x"
+        elif m.ctx == "while":
+            pre = "  var w = 0\n  while w < 1 {\n    w = w + 1\n    let r = "
+            post = "\n  }\n  0"
+            scrut = "x"
+        elif m.ctx == "for":
+            pre = "  for q in 1 {\n    let r = "
+            post = "\n  }\n  0"
+            scrut = "x"
+        elif m.ctx == "operand":
+            pre = "  0 + ("
+            post = ")"
             scrut = "x"
         else:
             pre = "  "
